@@ -588,6 +588,40 @@ theorem extractVersions_single {objs : List Obj} {v : Ver} (h : extractVersions 
   rw [h] at this
   simpa using this
 
+/-- `ExtractAPIVersions` on the raw objects (a fresh `TypeMeta` per object) is `extractVersions` on the
+decoded objects: `null`, `{}` and objects without `apiVersion` count as the empty version wherever
+they stand -/
+theorem extractVersionsRaw_eq (raws : List RawObj) :
+    extractVersionsRaw raws = extractVersions (raws.map RawObj.decode) := by
+  unfold extractVersionsRaw extractVersions
+  rw [List.foldl_map]
+  congr 1
+  funext acc o
+  cases o with
+  | null => rfl
+  | obj id v => cases v <;> rfl
+
+/-- an object that decodes to a non-empty version carries that `apiVersion` itself -/
+theorem decode_ver_eq {o : RawObj} {v : Ver} (hv : v ≠ []) (h : o.decode.ver = v) :
+    ∃ id, o = .obj id (some v) := by
+  cases o with
+  | null => exact absurd h.symm hv
+  | obj id w =>
+    cases w with
+    | none => exact absurd h.symm hv
+    | some w => exact ⟨id, by simp [RawObj.decode] at h; rw [h]⟩
+
+/-- the handler's test on a raw hook answer: "the versions are exactly [desired]" holds only if every
+element is a JSON object with `apiVersion: desired` — no `null`, `{}`, version-less or older object in
+any position -/
+theorem extractVersionsRaw_single {raws : List RawObj} {v : Ver} (hv : v ≠ [])
+    (h : extractVersionsRaw raws = [v]) : ∀ o ∈ raws, ∃ id, o = .obj id (some v) := by
+  intro o ho
+  rw [extractVersionsRaw_eq] at h
+  have hall := extractVersions_single h
+  simp only [List.all_eq_true, beq_iff_eq] at hall
+  exact decode_ver_eq hv (hall _ (List.mem_map_of_mem ho))
+
 /-- what the way the inner loop ended says about the outcome of the last hook run -/
 def EndOK (desired : Ver) : PathEnd → List Obj → Option HookOut → Prop
   | .done, o, lo => lo = some (.resp "" o) ∧ extractVersions o = [desired]
@@ -1090,6 +1124,12 @@ theorem unconverted_object_witness :
     applyCheck twoStep (V "g.io/v3") objs3 holeScript holeInv
       (.success [⟨1, V "g.io/v3"⟩, ⟨2, []⟩, ⟨3, V "g.io/v3"⟩])
       = some "success-though-a-returned-object-is-not-at-the-desired-version" := by decide
+
+/-- the zero value per object matters: with one `TypeMeta` shared by all objects a `null` or a
+version-less object after a converted one would pass for converted -/
+theorem shared_decode_witness :
+    extractVersionsRaw [.obj 1 (some (V "g.io/v3")), .null, .obj 3 none] = [V "g.io/v3", []] ∧
+    extractVersionsShared [.obj 1 (some (V "g.io/v3")), .null, .obj 3 none] = [V "g.io/v3"] := by decide
 
 /-- … while the `Success` of a run in which every object was converted is accepted -/
 example : applyCheck twoStep (V "g.io/v3") objsV1 okScript
